@@ -9,8 +9,13 @@ THEOREMS = [
     ("UscxmlVerif.Properties.C15.unescape_escape", "proved", "for ALL byte strings s: jsonUnescape (jsonEscape s) = s"),
     ("UscxmlVerif.Properties.C15.strScan_escape", "proved", "for all NUL-free s: jsmn's string scan over the escaped text of s ends exactly at the closing quote the printer wrote (no bare quote, no dangling backslash)"),
 ]
-LEAN_FILES = ["UscxmlVerif.Properties.C15"]
-FINISH = {"level": "exploration"}
+THEOREMS += [
+    ("UscxmlVerif.Properties.C15.fromJSON_no_oob", "proved", "for EVERY byte string: Data::fromJSON as modelled with checked indices (trim, token budget loop, jsmn non-strict tokenizer, tree builder with token and data stacks) never reads outside the allocated token array and never pops an empty stack"),
+    ("UscxmlVerif.Proofs.JsonBounds.pinv_parseLoop", "proved", "jsmn hands out exactly toknext <= numTokens tokens, each ending at or before the end of the text"),
+    ("UscxmlVerif.Proofs.JsonBounds.popWhile_ok", "proved", "leaving finished containers never empties the stacks: the bottom container is the first token, which spans the text"),
+]
+LEAN_FILES = ["UscxmlVerif.Properties.C15", "UscxmlVerif.Proofs.JsonBounds"]
+FINISH = {"level": "proof"}
 
 
 def run_pair(ctx, lines, variant="plain"):
